@@ -52,6 +52,14 @@ def r14_1(ctx, g):
         if isinstance(st, ast.Assign) and isinstance(st.value, ast.Dict) and len(st.value.keys) == 4:
             cases = st
     if cases is None:
+        # a module-level table subscripted with the pair of orientation characters
+        for sub in walk_own(pe.node):
+            if isinstance(sub, ast.Subscript) and isinstance(sub.value, ast.Name) and isinstance(sub.slice, ast.Tuple) and len(sub.slice.elts) == 2 and all(norm(e).endswith("[0]") for e in sub.slice.elts):
+                d = pe.module.consts.get(sub.value.id)
+                if isinstance(d, ast.Dict) and len(d.keys) == 4:
+                    cases = ast.Assign(targets=[ast.Name(id=sub.value.id, ctx=ast.Store())], value=d)
+                    ast.copy_location(cases, d)
+    if cases is None:
         raise AnalysisError("R14.1", pe.where(), "cannot find the step table of the walk check")
     tbl = {}
     for k, v in zip(cases.value.keys, cases.value.values):
@@ -178,8 +186,10 @@ def r14_2_3(ctx, g):
             pairs = dict(zip(a, b))
             ok_tab = all(pairs.get(pairs[x]) == x for x in pairs) and pairs.get("A") == "T" and pairs.get("C") == "G" and set(pairs) >= set("ACGT")
     ctx.check(ok_tab, "R14.2", um.relpath, "the complement table is an involution pairing A-T and C-G", f"gaftools.utils::complement:{sorted(pairs.items())}", table=pairs)
+    from ..core import resolve_expr
+
     ret = [r for r in walk_own(rc.node) if isinstance(r, ast.Return)]
-    src = norm(ret[0].value) if ret else ""
+    src = resolve_expr(rc.node, ret[0].value) if ret else ""
     p0 = rc.params[0]
     ok_rc = src in (f"{p0}[::-1].translate(complement)", f"{p0}.translate(complement)[::-1]")
     ctx.check(ok_rc, "R14.2", rc.where(), "rev_comp reverses the sequence and complements every base", key_of(rc, f"rev_comp:{src}"), expr=src)
